@@ -39,8 +39,8 @@ RULE = (
     "server configuration, client model) reached by a reply that carried a non-empty difference or an error."
 )
 ASSUMPTIONS = [
-    "a client speaks one protocol version per session; (server default version, request version) pairs explored: (3,3) (3,1) "
-    "to depth 3/4, (1,1) to depth 2/4, (3,2) (2,2) to depth 2/3 (quick/thorough); with differing versions the channels both "
+    "a client speaks one protocol version per session; (server default version, request version) pairs explored: (3,3) to "
+    "depth 3/4, (3,1) (1,1) to depth 2/4, (3,2) (2,2) to depth 2/3 (quick/thorough); with differing versions the channels both "
     "sides know (min of the two) are compared",
     "the reference state of a restarted server is taken from a fresh protocol-3 server (superset of the channels)",
     "requests that make the server raise (C15's subject, e.g. a JSON float for a hex option) are not in the alphabet; "
@@ -357,10 +357,10 @@ def req_line(cv: int, body: dict) -> str:
 
 
 def depth_of(tier: str, dv: int, cv: int) -> int:
-    """depth 3 (quick) / 4 (thorough) for the protocol pairs a current client meets -- (3,3), (3,1) and the protocol-1
-    server end to end in thorough; the remaining pairs one level less"""
+    """quick: depth 3 for the current protocol (3,3), depth 2 for the other pairs; thorough: depth 4 for (3,3), (3,1) and
+    the protocol-1 server end to end, depth 3 for (3,2) and (2,2)"""
     if tier == "quick":
-        return 3 if (dv, cv) in ((3, 3), (3, 1)) else 2
+        return 3 if (dv, cv) == (3, 3) else 2
     return 4 if (dv, cv) in ((3, 3), (3, 1), (1, 1)) else 3
 
 
@@ -671,7 +671,7 @@ class Explorer:
         ctx = f"[{self.item['tree']} dv={self.dv} cv={self.cv}] after {' ; '.join(h) if h else '(start)'}"
         if len(st.run.lines) != len(h) + 1:
             r.violation(
-                {"kind": "reply_count", "op": opc, "got_minus_expected": len(st.run.lines) - len(h) - 1},
+                {"kind": "reply_count", "op": opc, "stdout_lines": "too_many" if len(st.run.lines) > len(h) + 1 else "too_few"},
                 f"{ctx}: {len(st.run.lines)} stdout lines for {len(h)} requests",
                 self.case(h),
             )
